@@ -70,7 +70,12 @@ func init() {
 		deps := fullApp.AnalysisPath(dir, idents)
 		app := new(api.JavaApiApp)
 		out := []Sx{}
-		for _, r := range app.AnalysisPath(dir, deps, identMap, diMap) {
+		// the result is held across a scan of another directory before it is serialised
+		apis := app.AnalysisPath(dir, deps, identMap, diMap)
+		decoy := writeTree(L(L(A("d/DecoyController.java"), A("package d;\n@RestController\npublic class DecoyController {\n  @GetMapping(\"/decoy\")\n  public String decoy() { return null; }\n  @PostMapping(\"/decoy2\")\n  public String decoy2() { return null; }\n}\n"))))
+		_ = new(api.JavaApiApp).AnalysisPath(decoy, nil, map[string]core_domain.CodeDataStruct{}, map[string]string{})
+		os.RemoveAll(decoy)
+		for _, r := range apis {
 			out = append(out, L(A(r.HttpMethod), A(r.Uri), A(r.PackageName), A(r.ClassName), A(r.MethodName), A(r.RequestBodyClass)))
 		}
 		return L(out...)
@@ -86,6 +91,10 @@ func init() {
 		ignore := in.Nth(1).StrList()
 		app := bs.NewBadSmellApp()
 		nodes := app.AnalysisPath(dir)
+		// the result is held across an analysis of another directory before it is used
+		decoy := writeTree(L(L(A("d/Decoy.java"), A("package d;\npublic class Decoy {\n  public int getA() { return 1; }\n}\n"))))
+		_ = bs.NewBadSmellApp().AnalysisPath(decoy)
+		os.RemoveAll(decoy)
 		smells := app.IdentifyBadSmell(nodes, ignore)
 		keep := func(k string) bool { return k != "refusedBequest" && k != "graphConnectedCall" }
 		toSx := func(m bs_domain.BadSmellModel) Sx {
